@@ -4,24 +4,31 @@ import Sqljson.Model.Exec
 # C17 — Datetime methods parse, cast and compare by the time-zone rules
 
 The datetime model is `Model/Time.lean` (mirror of `path/types` and of the cast/compare matrices of
-`exec/datetime.go`; proofs in `Props/TimeLemmas.lean`).  Registered here, for every value, zone and
-option set:
+`exec/datetime.go`; proofs in `Props/TimeLemmas.lean`).  For every value, zone and option set:
 
-* cast matrix: `cast_identity`, `cast_tz_required_iff` (a cast between a zone-less and a zone-aware
-  value without `WithTZ` is exactly the `tzRequired` outcome, which the executor raises as a
-  **non-suppressible** error: `method_tz_error_is_hard`), `cast_not_recognized_iff`,
-  `cast_ok_with_tz`, `cast_kind`;
-* comparison: `compare_tz_required_iff`, `compare_only_error`, `times_incomparable_iff` (times are
-  incomparable — `-2`, i.e. unknown — with dates and timestamps, and only they), `compare_range`,
-  `compare_antisymmetric`, `compare_reflexive`, `compare_by_instant`, `compare_transitive_instant`,
-  `compare_transitive_same_kind`;
-* coherence with explicit casts: `compare_equals_cast_utc` (in UTC comparing directly equals
-  comparing after the cast to the common type) — and the **known finding D20**:
-  `compare_ignores_context_zone` / `compare_after_cast_differs`: under a non-UTC context zone the
-  direct comparison of a timestamp with a timestamptz takes the zone-less side as UTC while the
-  explicit cast honours the context zone; `compare_not_transitive_on_gap_day` (D27): mixed
-  time/timetz comparison is not transitive on a DST-gap day;
-* executor: `precision_capped_at_6`, `negative_precision_rejected`, `template_unsupported`.
+* cast matrix (`TimeLemmas`): `castTo_diag`, `castTo_tzRequired_iff` (a cast between a zone-less and a
+  zone-aware value without `WithTZ` is exactly the `tzRequired` outcome, which the executor raises
+  as a **non-suppressible** error: `method_tz_error_is_hard`), `castTo_notRecognized_iff`,
+  `castTo_ok_of_useTZ`, `castTo_kind`;
+* comparison (`TimeLemmas`): `compareDatetime_tzRequired_iff`, `compareDatetime_error`,
+  `compareDatetime_incomparable_iff` (times are incomparable — `-2`, i.e. unknown — with dates and
+  timestamps, and only they), `compareDatetime_range`, `compareDatetime_swap` /
+  `compareDatetime_antisymm` (all 25 kind pairs), `compareDatetime_refl`,
+  `compareDatetime_sameKind`, `compareDatetime_trans_sameKind`;
+* **coherence with explicit casts** (defect D20 repaired): `compare_equals_cast` — with `WithTZ`,
+  for every context zone and every `today`, comparing two comparable datetimes equals comparing
+  them after explicit casts to their common type, for all 13 comparable kind pairs and both operand
+  orders (`C17.compare_is_compare_after_cast`); corollaries `compare_cast_commute`,
+  `compare_cast_commute_utc`, closed forms `compare_direct_fixed`, `compare_after_cast_fixed`;
+* transitivity through the context zone: `compareDatetime_instant` / `compareDatetime_trans_instant`
+  (dates, timestamps, timestamptz: transitive in every zone where `time.Date` is strictly increasing
+  in the wall clock, `Zone.StrictMono`), `compareDatetime_trans_instant_fixed` (every fixed zone, UTC
+  included, unconditionally);
+* **known findings**: `compare_not_transitive_in_gap` (D28: a timestamp inside a DST gap is mapped
+  backwards by `time.Date`, which breaks transitivity; `envNY_not_strictMono`),
+  `compare_not_transitive_on_gap_day` (D27: mixed time/timetz comparison on a day with a DST gap);
+* executor: `precision_capped_at_6`, `negative_precision_rejected`, `template_unsupported`,
+  `non_string_rejected`, `compare_tz_error_is_hard`, `incomparable_is_unknown`.
 -/
 
 namespace Sqljson
@@ -49,6 +56,24 @@ theorem incomparable_is_unknown (c : Ctx) (op : BinOp) (a b : DateTime)
     (h : compareDatetime c.env c.useTZ a b = .ok (-2)) :
     compareItems c op (.dt a) (.dt b) = .val .unknown none := by
   simp [compareItems, h]
+
+/-- **C17 coherence**: comparing two comparable datetimes with `WithTZ` gives the same answer as
+    comparing them after explicit casts to their common type (any zone, any `today`) -/
+theorem compare_is_compare_after_cast (env : Time.Env) (a b : DateTime) (τ : DTKind)
+    (hτ : commonKind a.kind b.kind = some τ) (ha : DateOffsetOK a) (hb : DateOffsetOK b) :
+    compareDatetime env true a b =
+      (castTo env true τ a >>= fun a' => castTo env true τ b >>= fun b' => compareDatetime env true a' b') :=
+  compare_equals_cast env a b τ hτ ha hb
+
+/-- comparison is antisymmetric: swapping the operands negates a `-1/0/1` answer -/
+theorem compare_antisymmetric (env : Time.Env) (useTZ : Bool) (a b : DateTime) (c : Int)
+    (h : compareDatetime env useTZ a b = .ok c) (hc : c ≠ -2) : compareDatetime env useTZ b a = .ok (-c) :=
+  compareDatetime_antisymm env useTZ a b c h hc
+
+/-- times are incomparable with dates and timestamps -/
+theorem times_incomparable (env : Time.Env) (useTZ : Bool) (a b : DateTime) :
+    compareDatetime env useTZ a b = .ok (-2) ↔ isClock a.kind ≠ isClock b.kind :=
+  compareDatetime_incomparable_iff env useTZ a b
 
 /-- fractional seconds are rounded to the given precision, capped at 6 -/
 theorem precision_capped_at_6 (c : Ctx) (op : UnOp) (src : List Char) (p : Int) (hop : op ≠ .datetime ∧ op ≠ .date)
